@@ -213,6 +213,14 @@ def check_case(ctx, case):
     except Malformed as e:
         return 'output not parseable: %s' % e
     msg = observe(ctx, rows, r, sc)
+    if msg is None and kind == 'box' and key_of(rows)[0] % 8 == 0 and not any('"' in x for x in rows):
+        # the box drawn into a CellBuffer that already rendered another drawing (a box elsewhere, then edited through the
+        # public map interface): recognition must be that of the cells the buffer holds now (driver entry 6)
+        first = ['', '  +----+', '  |    |    .--.', "  +----+    '--'"]
+        r6 = ctx.conv(gen.text_of(first) + '\x1e' + gen.text_of(rows), entry=6)
+        ctx.tag('boxes_drawn_into_a_used_buffer')
+        if not r6.ok or r6.out != r.out:
+            msg = 'a box drawn into a buffer that rendered another drawing before is not recognised as in a fresh buffer'
     nrect = sum(1 for e, _ in sc.flat() if e[0] == 'rect' and 'nofill' in e[1])
     if kind == 'box':
         ctx.note(key_of(rows), True, 'completeness_boxes', 'style_' + case['style'])
